@@ -639,6 +639,18 @@ func (x *fx) evalCall(e *Expr, env *specEnv) *Val {
 			// fresh(x): x was allocated by this activation (not reachable from the caller's state)
 			v := x.eval(args[0], env)
 			return &Val{T: tBool, S: "(>= " + x.refOf(v) + " " + x.top0 + ")"}
+		case "cell":
+			// cell(v): the address of the memory cell of the source variable v (a
+			// variable captured by a closure or address-taken lives in memory; when
+			// different loads of it reach a program point no single value stands for
+			// its name there).  deref(cell(v)) is its current value.
+			if len(args) == 1 && args[0].Op == "id" {
+				if v := x.allocNamed(args[0].Name); v != nil {
+					return v
+				}
+				panic(specErr("unbound name " + args[0].Name))
+			}
+			panic(specErr("cell() takes the name of a variable"))
 		case "deref":
 			p := x.eval(args[0], env)
 			if _, ok := p.T.Underlying().(*types.Pointer); !ok {
